@@ -11,6 +11,14 @@ from symx.core import SReal, term
 
 PARITY = ["DemographicParity", "TruePositiveRateParity", "FalsePositiveRateParity", "EqualizedOdds", "ErrorRateParity"]
 GROUP_NAMES = ["G0", "G1", "G2", "G3"]
+
+
+def set_group_order(job_id):
+    """Restricted-growth group ids always first appear in increasing order; for every other job the NAMES are assigned in decreasing order,
+    so that the order of first appearance in the data differs from the sorted order of the labels."""
+    rev = sum(job_id.encode()) % 2 == 1
+    GROUP_NAMES[:] = ["G3", "G2", "G1", "G0"] if rev else ["G0", "G1", "G2", "G3"]
+    return rev
 CTRL_NAMES = ["K0", "K1", "K2"]
 
 
